@@ -97,8 +97,11 @@ pub fn absorb(run: &mut Run, sw: Sweep, family: &str) {
 
 /// inputs that are extreme in one dimension (src/scale.rs) through the same reference detectors
 pub fn scale_sweep(run: &mut Run, ds: &[crate::dets::Detector], items: Vec<(String, String, Vec<usize>)>, family: &str) {
+    scale_sweep_mode(run, ds, items, family, Mode::Semantic)
+}
+pub fn scale_sweep_mode(run: &mut Run, ds: &[crate::dets::Detector], items: Vec<(String, String, Vec<usize>)>, family: &str, mode: Mode) {
     let items: Vec<_> = items.into_iter().filter(|(_, t, _)| refdet::unique_state_var_names(t)).collect();
-    let sw = refdet::sweep_texts(&items, ds, Mode::Semantic);
+    let sw = refdet::sweep_texts(&items, ds, mode);
     absorb(run, sw, family);
 }
 
@@ -126,7 +129,7 @@ pub fn c05(tier: Tier) -> i32 {
     if ds.len() != C05_DETS.len() {
         run.machinery("not all 11 detectors are addressable by their documented name".into());
     }
-    let (sw, _sum, sigma_samples) = refdet::sweep_stream(tier, &ds, Mode::Semantic, &|p| p.tag.contains("atom."));
+    let (sw, _sum, sigma_samples) = refdet::sweep_stream(tier, &ds, Mode::SemanticLines, &|p| p.tag.contains("atom."));
     require_must(&mut run, &sw, C05_DETS, "Σ");
     // boundary family: multiplications / divisions by 2^k and its neighbours, k = 0..256
     let mut items = Vec::new();
@@ -172,17 +175,17 @@ pub fn c05(tier: Tier) -> i32 {
             }
         }
     }
-    let sw_idx = refdet::sweep_texts(&idx_items, &upd, Mode::Semantic);
+    let sw_idx = refdet::sweep_texts(&idx_items, &upd, Mode::SemanticLines);
     require_must(&mut run, &sw_idx, &["assign_update_array_value"], "index-literals");
     absorb(&mut run, sw_idx, "index-literals");
     let shift: Vec<_> = ds.iter().filter(|d| d.name == "shift_math" || d.name == "solidity_math").cloned().collect();
-    let sw2 = refdet::sweep_texts(&items, &shift, Mode::Semantic);
+    let sw2 = refdet::sweep_texts(&items, &shift, Mode::SemanticLines);
     require_must(&mut run, &sw2, &["shift_math"], "pow2-boundary");
     absorb(&mut run, sw2, "pow2-boundary");
     {
         let mut it = crate::scale::line_items(tier == Tier::Thorough);
         it.extend(crate::scale::shape_items());
-        scale_sweep(&mut run, &ds, it, "scale");
+        scale_sweep_mode(&mut run, &ds, it, "scale", Mode::SemanticLines);
     }
     let samples = json!(sigma_samples);
     absorb(&mut run, sw, "Σ");
